@@ -74,6 +74,7 @@ type harnessReport struct {
 	Infeasible   int            `json:"paths_infeasible"`
 	Steps        int            `json:"ssa_instructions_executed"`
 	MaxGap       int            `json:"max_instructions_between_progress"`
+	Files        map[string]int `json:"instructions_executed_per_source_file"`
 	Obligations  int            `json:"assertions_checked"`
 	Discharged   map[string]int `json:"assertions_discharged_by_label"`
 	Covers       map[string]int `json:"covers_reached"`
@@ -182,7 +183,7 @@ func checkMain(args []string) {
 		}
 		st := Explore(P, pkg, h, *workers, *solver, *timeout)
 		r := &harnessReport{Harness: h.Func, Pkg: h.Pkg, Note: h.Note, Opts: h.Opts, Paths: st.Paths, Completed: st.Completed, Infeasible: st.Infeasible,
-			Steps: st.Steps, MaxGap: st.MaxGap, Obligations: st.AssertsTotal, Discharged: st.Asserts, Covers: st.Covers,
+			Steps: st.Steps, MaxGap: st.MaxGap, Files: st.Files, Obligations: st.AssertsTotal, Discharged: st.Asserts, Covers: st.Covers,
 			Queries: st.Solver.Queries, Sat: st.Solver.Sat, Unsat: st.Solver.Unsat, Unknown: st.Solver.Unknown,
 			SolverS: st.Solver.Time.Seconds(), MaxQueryS: st.Solver.MaxQuery.Seconds(), WallS: st.Wall.Seconds(), OverflowObl: st.OverflowObl,
 			Errors: dedupe(st.Errors, 5), BoundsHit: dedupe(st.Bounds, 5), Inconclusive: dedupe(st.Inconclusive, 5)}
